@@ -110,8 +110,8 @@ def refeval(desc: dict, output: str, kwargs: dict) -> tuple[Any, dict, list]:
             elif len(f["outputs"]) == 1:
                 vals[f["outputs"][0]] = t
             else:
-                for o in f["outputs"]:
-                    vals[o] = f"{t}.{o}"
+                for o in f["outputs"]:  # (the body labels its tuple elements with the names it was built with)
+                    vals[o] = f"{t}.{f.get('labels', {}).get(o, o)}"
             return vals[name]
         raise NotComputable(name)
 
